@@ -531,10 +531,10 @@ var _ = context.Background
 
 func main() {
 	driver.Main(driver.Property{
-		ID:    "C17",
-		Level: "exploration",
-		Rule:  "every legal script (≤3/5 values, endings complete/error/none) × ToChannel capacity 0..2/3 × source drive {synchronous, puppet} × reader {reads everything, stops after 1, after 2, never reads} × Unsubscribe after each prefix of the script: exactly one channel is delivered at subscription; what is read from it equals (or is a prefix of) the materialised notification sequence; the channel ends up closed after the terminal or the unsubscription (a reader draining it terminates); no panic reaches the goroutine calling Next (recover around every harness-side emission); a producer blocked on a full channel is released by Unsubscribe. FromChannel: n values through a channel of capacity c, closed or abandoned, Unsubscribe after k deliveries — values in order, completion iff closed, at most capacity+1 values taken from the channel after Unsubscribe returned. ToSlice / ToMap (last write wins) / Collect results and Materialize∘Dematerialize == identity on every script. A deterministic park at the hook point before ToChannel's hand-out reproduces 'source ends before the channel is handed out'. Non-trivial: every case reads a channel or a result.",
-		Assume: []string{"a send-on-closed-channel panic that is caught inside the library is allowed by the statement; one that escapes is not"},
+		ID:        "C17",
+		Level:     "exploration",
+		Rule:      "every legal script (≤3/5 values, endings complete/error/none) × ToChannel capacity 0..2/3 × source drive {synchronous, puppet} × reader {reads everything, stops after 1, after 2, never reads} × Unsubscribe after each prefix of the script: exactly one channel is delivered at subscription; what is read from it equals (or is a prefix of) the materialised notification sequence; the channel ends up closed after the terminal or the unsubscription (a reader draining it terminates); no panic reaches the goroutine calling Next (recover around every harness-side emission); a producer blocked on a full channel is released by Unsubscribe. FromChannel: n values through a channel of capacity c, closed or abandoned, Unsubscribe after k deliveries — values in order, completion iff closed, at most capacity+1 values taken from the channel after Unsubscribe returned. ToSlice / ToMap (last write wins) / Collect results and Materialize∘Dematerialize == identity on every script. A deterministic park at the hook point before ToChannel's hand-out reproduces 'source ends before the channel is handed out'. Non-trivial: every case reads a channel or a result.",
+		Assume:    []string{"a send-on-closed-channel panic that is caught inside the library is allowed by the statement; one that escapes is not"},
 		Plan:      plan,
 		Run:       runCase,
 		CaseWatch: 60 * time.Second,
